@@ -4,7 +4,7 @@ From NV Require Import Base.Witness Bcf.Ints Bcf.Typed Bcf.Genotype.
 Extraction "model.ml" nv_types_witness
   enc_info_int dec_info_int enc_info_ints dec_info_ints
   enc_info_float dec_info_float enc_info_floats dec_info_floats
-  enc_info_string dec_info_string
+  enc_info_string dec_info_string enc_info_missing
   enc_fmt_int dec_fmt_int enc_fmt_ints dec_fmt_ints
   enc_fmt_float dec_fmt_float enc_fmt_floats dec_fmt_floats
   enc_gt dec_gt classify enc_type read_type.
